@@ -398,6 +398,16 @@ def member_table(rep, idx, sig, table, rule="C20.5"):
             if clamp or shifted:
                 wrong = (f"the member is declared {ir.show(fs)} wide, which differs from the parameter {ir.show(es)} for accepted values "
                          "(a clamped or shifted width): member widths must follow the parameters")
+
+            def const_width(x):
+                if x[0] == 'const' and isinstance(x[1], int) and not isinstance(x[1], bool):
+                    return x[1]
+                if x[0] == 'call' and x[1] == ('name', 'unsigned') and len(x[2]) == 1 and x[2][0][0] == 'const' and isinstance(x[2][0][1], int):
+                    return x[2][0][1]
+                return None
+            if wrong is None and const_width(fs) is not None and const_width(es) is not None and const_width(fs) != const_width(es):
+                wrong = f"the member is declared {const_width(fs)} bit(s) wide; its role has {const_width(es)}"
+
         if not ok_flow:
             wrong = "wrong direction"
         elif not ok_guard and presence_witness is not None:
